@@ -74,6 +74,14 @@ def mk_format(spec):
     return FPFormat(E, M, rounding=rounding, srbits=srbits) if rounding == "stochastic" else FPFormat(E, M, rounding=rounding)
 
 
+def _grad(torch, outs, leaves, ups):
+    """gradients of the outputs that are differentiable at all (an output computed from grad-free inputs alone is not)"""
+    live = [(y, u) for y, u in zip(outs, ups) if y.requires_grad]
+    if not live or not leaves:
+        return tuple(None for _ in leaves)
+    return torch.autograd.grad([y for y, _ in live], leaves, [u for _, u in live], allow_unused=True)
+
+
 class QuantLog:
     """Observability: every real FPFormat.quantise call with the format fields actually used."""
 
@@ -177,7 +185,7 @@ def run_case(case: Dict[str, Any], ctx) -> None:
             ups = [torch.randn(y.shape, generator=g, dtype=y.dtype) for y in outs_u]
             names = [f"input{i}" for i, t in enumerate(ins_u) if t.is_floating_point() and req_in] + [k for k in sorted(params) if params[k].requires_grad]
             leaves_u = [t for t in ins_u if t.is_floating_point() and req_in] + [params[k] for k in sorted(params) if params[k].requires_grad]
-            gu = torch.autograd.grad(outs_u, leaves_u, ups, allow_unused=True)
+            gu = _grad(torch, outs_u, leaves_u, ups)
         except Exception as e:
             feat = [f for f in feats if f in ("F.linear:kw", "sdpa:mask-pos", "F.linear:none2")]
             ctx.violation("C15:transformed-module-raises:" + exc_key(e), f"{e!r}; features {feats}", source=src, fmt=fmt_name)
@@ -213,7 +221,7 @@ def run_case(case: Dict[str, Any], ctx) -> None:
             mod_attrs = {md["name"]: {"constraint": "to_output_scale"} for md in prog["mods"] if md["type"] == "uu.Linear"}
             outs_r, _ = progs.interpret(prog, pref, ins_r, "plain", quant=quant, mod_attrs=mod_attrs)
         leaves_r = [t for t in ins_r if t.is_floating_point() and req_in] + [pref[k] for k in sorted(params) if params[k].requires_grad]
-        gr = torch.autograd.grad(outs_r, leaves_r, ups, allow_unused=True)
+        gr = _grad(torch, outs_r, leaves_r, ups)
     if root_case:
         ctx.count("root-layer:checked")
     ctx.count("outputs:compared", len(outs_r))
@@ -249,7 +257,7 @@ def run_case(case: Dict[str, Any], ctx) -> None:
                 out_2 = sim(*ins_2)
                 outs_2 = list(out_2) if isinstance(out_2, (tuple, list)) else [out_2]
                 leaves_2 = [t for t in ins_2 if t.is_floating_point() and req_in] + [params[k] for k in sorted(params) if params[k].requires_grad]
-                g2 = torch.autograd.grad(outs_2, leaves_2, ups, allow_unused=True)
+                g2 = _grad(torch, outs_2, leaves_2, ups)
         except Exception as e:
             ctx.violation("C15:transformed-module-raises-on-a-later-call:" + exc_key(e), repr(e), source=src, fmt=fmt_name)
             return
@@ -287,7 +295,7 @@ def run_case(case: Dict[str, Any], ctx) -> None:
         out_o = m(*ins_o)
         outs_o = list(out_o) if isinstance(out_o, (tuple, list)) else [out_o]
         po = {k: v for k, v in m.named_parameters()}
-        go = torch.autograd.grad(outs_o, [t for t in ins_o if t.is_floating_point() and req_in] + [po[k] for k in sorted(po) if po[k].requires_grad], ups, allow_unused=True)
+        go = _grad(torch, outs_o, [t for t in ins_o if t.is_floating_point() and req_in] + [po[k] for k in sorted(po) if po[k].requires_grad], ups)
         ctx.count("lossless:bit-compared")
         same = all(bits_equal(a.detach(), b.detach()) for a, b in zip(outs_u, outs_o)) and all(
             (a is None and b is None) or (a is not None and b is not None and bits_equal(a, b)) for a, b in zip(gu, go))
